@@ -20,7 +20,7 @@ TOL = {"f64": 1e-7, "f32": 3e-3}
 
 def gen_fullrank(rng, mmax=4, nmax=6, structured=False, e=None):
     for _ in range(500):
-        m = rng.randint(1, mmax)
+        m = rng.randint(3 if structured else 1, mmax)
         n = rng.randint(m, nmax)
         if structured and m >= 3:
             a = rng.choice([8, 16, 32])
@@ -177,7 +177,7 @@ def run(chk):
         name = ["IMTLG", "ConFIG", "AlignedMTL"][i % 3]
         # every fourth case (of each aggregator in turn) sits at the small scale 2^-30 AND is followed by its
         # sibling: entries of J J^T around 1e-17, where anything compared with an absolute tolerance is "equal"
-        J, e = gen_fullrank(rng, structured=(name == "IMTLG" and rng.random() < 0.4), e=(-30 if i % 4 == 0 else None))
+        J, e = gen_fullrank(rng, structured=(name == "IMTLG" and (i % 6 == 0 or rng.random() < 0.3)), e=(-30 if i % 4 == 0 else None))
         p = {}
         if name in ("ConFIG", "AlignedMTL"):
             p = {"pref": A.gen_pref(rng, len(J), positive=True)}
